@@ -7,7 +7,7 @@ import sys
 
 import numpy as np
 
-from ..core import Clause, Violation, HarnessError, require, derive_seed, VERIF
+from ..core import Clause, Violation, HarnessError, require, derive_seed, load_known, VERIF
 from .. import gens_c09 as g9
 from ..oracles import unitexpr as ux
 
@@ -21,19 +21,49 @@ RULE = ("unit expressions are ASTs of the grammar E := F (('*'|'/') F)*, F := A 
         "sub-expression raised to a power; invariance - the two expressions differ and >= 2 distinct configurations; "
         "named - a chosen unit is not an SI unit (also the seed='SI' and integer-seed cases), every choice with all permutations of "
         "its keywords; history - a walk with >= 2 named choices and >= 1 transition that changes exactly one quantity; lammps_dims - a judged entry "
-        "(style other than lj, key present); atheris - a campaign that ran.")
+        "(style other than lj, key present); atheris - a campaign that ran. "
+        "Exponents and numeric factors also come from near-threshold pools (1e-13 ... 1e-3 away from a whole number, a half, zero, one). "
+        "forms - a sequence of 2-6 calls (set_in_units, get_in_units, set_literal, style.unit, reset_units) in one process; each value in a "
+        "drawn storage form (list/tuple/float64, every integer width, unsigned, big-endian, bool up to the dtype limits, numpy scalars, "
+        "read-only / strided / negative-stride / Fortran / transposed arrays, float16/float32 with exactly representable values), with "
+        "one magnitude, one magnitude PER ELEMENT (10^-30 ... 10^30), near-threshold values or exact halves, under a random expression, "
+        "the working unit itself, or a literal next to one times it; after a call the caller overwrites what it handed in / got back or "
+        "hands the result on; non-trivial: >= 2 judged calls and a non-plain form, a caller-side edit, a reset between calls, a "
+        "many-decade array or a factor-one expression; pairs - every ordered pair of named choices (by quantity subset) and of unit styles.")
 ASSUMPTIONS = ["numericalunits assigns dimensionally consistent values to its names for every seed (its values are the leaves "
                "of my evaluator; my dimension table was verified against it by regression)",
                "Python float arithmetic and float(str) define the meaning of numeric literals",
-               "lammps_dims evaluates table entries with uc.parse (decided by clause precedence) and with my own text parser"]
+               "lammps_dims evaluates table entries with uc.parse (decided by clause precedence) and with my own text parser",
+               "numpy converts integer, bool and narrow-float arrays of every width / byte order / layout to float64 exactly (the float64 "
+               "reference of a stored value is numpy.array(value, dtype=float))",
+               "atomman/lammps/style.py executed into a fresh namespace behaves like the module in a fresh interpreter (reference for "
+               "'the table is a function of the style alone'; a fresh interpreter is used if the file stops being self-contained)"]
 LEVEL_TEXT = ("Property-based exploration: grammar-generated unit expressions (depth <= 4, random whitespace) under random, SI "
               "and named working units judged by an independent AST evaluator, set/get/set_literal round trips on scalars and "
               "arrays, same-dimension expression pairs compared across three configurations, exhaustive enumeration of the "
               "named working-unit choices in every keyword order and of the LAMMPS style tables (dimension by regression over random seeds); "
               "walks through named choices differing in one quantity at a time with a fixed battery of compound expressions of every "
-              "dimension class re-evaluated after each reset; optional byte-level atheris campaign on uc.parse.")
-TECHNIQUE = "property-based testing (Hypothesis, 16 seeded shards): independent AST evaluator, dimension algebra, exhaustive named-choice x keyword-order enumeration, single-quantity reset histories, atheris grammar fuzzing"
+              "dimension class re-evaluated after each reset; optional byte-level atheris campaign on uc.parse; call sequences with the "
+              "value in every storage form (dtype x layout), arrays spanning up to 66 decades, near-threshold exponents / factors / values, "
+              "factor-one expressions, a ledger of everything returned re-judged bit for bit after later calls, resets and caller-side "
+              "overwrites; exhaustive ordered pairs of named choices (by quantity subset, with seed / SI in between) and of unit styles.")
+TECHNIQUE = "property-based testing (Hypothesis, 16 seeded shards): independent AST evaluator, dimension algebra, exhaustive named-choice x keyword-order enumeration, single-quantity reset histories, storage-form / ledger / caller-mutation call sequences, exhaustive ordered pairs of choices and styles, atheris grammar fuzzing"
 WALL = {'quick': 58, 'thorough': 600}
+
+# Generator classes carried over from the seeded rounds (A-H of the cross-pollination audit) and where they live here:
+#   A result ledger ............... forms: class Ledger (labels ledger, ledger_across_reset); style tables: forms + pairs
+#   B caller-side mutation ........ forms: post = mut_out / mut_in / mut_both / prev (labels mut_out, mut_in, reuse_out, style_edit);
+#                                   identity already compares its argument with a snapshot
+#   C storage and input dtypes .... forms: build_form (labels form_*, dtype_limit, narrow_float); identity: py / tuple / array / intarray
+#   D working-unit configuration .. every clause runs under a drawn cfg (cfg_named / cfg_seed / cfg_SI), invariance under three,
+#                                   history / forms / pairs reset BETWEEN calls; always restored to DEFAULT in a finally
+#   E near-threshold values ....... gens_c09 EXPS_NEAR / LITS_NEAR / XQ_NEAR in every grammar clause (near_int_exp, near_one_lit);
+#                                   forms: value_near, factor_near_one.  No documented tolerance exists in unitconvert to stay off.
+#   F many decades in one call .... forms: struct 'decades' (labels decades, decades_16), each element against its own single call
+#   G exactly structured inputs ... forms: the working unit itself as expression (factor_one_expr), None / 'scaled', exact halves
+#                                   (value_halves); named / pairs: SI names, the choice already in force asked for again (same_choice)
+#   H enumerated combinations ..... named (every choice x every keyword order), pairs (every ordered pair of choices by quantity subset
+#                                   x {nothing, seed, SI} in between; every ordered pair of styles x caller edit), lammps_dims
 
 EPS = 2.220446049250313e-16
 DEFAULT = dict(length='angstrom', mass='amu', energy='eV', charge='e')
@@ -219,6 +249,7 @@ def oracle_invariance(case):
         labels.add('expanded')
     if 'frac_exp' in fa:
         labels.add('frac_exp')
+    labels |= fa & {'near_int_exp', 'near_one_lit'}
     x = case['x']
     xr = np.array(x, dtype=float)
     xnz = np.abs(xr[xr != 0])
@@ -685,6 +716,455 @@ def oracle_lammps(case):
     return labels
 
 
+# ----------------------------------------------------------------------------- forms (storage forms, ledger, caller-side edits)
+
+KEY_NARROWF = 'C09:set_get_in_units:float16-float32-storage'
+NATIVE = '<' if sys.byteorder == 'little' else '>'
+
+
+def _fresh_style_tables(stylemod):
+    """style -> the table style.unit(style) returns when it is the FIRST call on a freshly loaded copy of the module (one fresh
+    copy per style): the reference for 'the table is a function of the style alone'.  atomman/lammps/style.py is executed into a
+    new namespace; should it ever stop being self-contained, a fresh interpreter per style is used instead."""
+    path = stylemod.__file__
+    if path in _FRESH:
+        return _FRESH[path]
+    out = {}
+    for name in STYLES:
+        try:
+            ns = {'__name__': 'c09_fresh_style_' + name, '__file__': path}
+            with open(path) as fh:
+                exec(compile(fh.read(), path, 'exec'), ns)
+        except ImportError:
+            root = os.path.abspath(os.environ.get('VERIF_REPO_ROOT', '/repo'))
+            p = subprocess.run([sys.executable, '-W', 'ignore', '-c', 'import json, sys\nimport atomman.lammps as l\n'
+                                'print("C09-STYLE " + json.dumps(list(l.style.unit(sys.argv[1]).items())))', name],
+                               env=dict(os.environ, PYTHONPATH=root), stdout=subprocess.PIPE, stderr=subprocess.PIPE)
+            line = [l for l in p.stdout.decode().splitlines() if l.startswith('C09-STYLE ')]
+            if p.returncode != 0 or not line:
+                raise HarnessError('no fresh-interpreter reference for style %r: %s' % (name, p.stderr.decode()[-500:]))
+            out[name] = dict(json.loads(line[-1][len('C09-STYLE '):]))
+            continue
+        out[name] = dict(ns['unit'](name))
+    _FRESH[path] = out
+    return out
+
+
+_FRESH = {}
+
+
+def _bits(a):
+    a = np.asarray(a)
+    return (a.dtype.str, a.shape, a.tobytes())
+
+
+class Ledger:
+    """everything the judged calls handed out (arrays, numpy scalars, style tables) and every ndarray they were given, with a
+    snapshot taken at return time (after the oracles judged it).  A value in working units that the caller holds must stay
+    that value whatever is called, reset or overwritten afterwards: after every later step each entry is compared with its
+    snapshot bit for bit; results never share memory with an argument or with each other."""
+
+    def __init__(self):
+        self.results = []        # [object, snapshot, where]
+        self.inputs = []
+        self.tables = []         # [dict object, snapshot dict, where]
+
+    def add(self, obj, where):
+        if isinstance(obj, np.ndarray):
+            for arr, _, w in self.inputs:
+                if np.shares_memory(obj, arr):
+                    raise Violation('the array returned by %s shares memory with an argument (%s)' % (where, w))
+            for other, _, w in self.results:
+                if isinstance(other, np.ndarray) and np.shares_memory(obj, other):
+                    raise Violation('the arrays returned by two calls share memory: %s / %s' % (where, w))
+        self.results.append([obj, _bits(obj), where])
+        return obj
+
+    def add_input(self, arr, where):
+        if isinstance(arr, np.ndarray) and not any(arr is a for a, _, _ in self.inputs):
+            self.inputs.append([arr, _bits(arr), where])
+
+    def resnap(self, obj):
+        for e in self.results + self.inputs:
+            if e[0] is obj:
+                e[1] = _bits(obj)
+        for e in self.tables:
+            if e[0] is obj:
+                e[1] = dict(obj)
+
+    def add_table(self, d, where):
+        self.tables.append([d, dict(d), where])
+
+    def verify(self, after):
+        for obj, snap, where in self.results:
+            now = _bits(obj)
+            if now != snap:
+                raise Violation('%s returned %r (%s); after %s the caller\'s object holds %r (%s)'
+                                % (where, np.frombuffer(snap[2], dtype=snap[0]).tolist(), snap[0], after, np.asarray(obj).tolist(), now[0]))
+        for arr, snap, where in self.inputs:
+            now = _bits(arr)
+            if now != snap:
+                raise Violation('the argument of %s was %r; after %s it is %r'
+                                % (where, np.frombuffer(snap[2], dtype=snap[0]).tolist(), after, arr.tolist()))
+        for d, snap, where in self.tables:
+            if dict(d) != snap:
+                raise Violation('the table returned by %s changed after %s: %r -> %r' % (where, after, snap, dict(d)))
+
+
+def build_form(spec):
+    """(the object handed to atomman, its float64 reference, labels) for a value in a storage form (gens_c09._form_value)"""
+    v, dt, lay = spec['v'], spec['dt'], spec['layout']
+    ref = np.array(v, dtype=float)
+    labs = set()
+    if dt in ('list', 'tuple') or lay == 'py':
+        def conv(x):
+            if isinstance(x, list):
+                return tuple(conv(y) for y in x) if dt == 'tuple' else [conv(y) for y in x]
+            return x
+        labs.add('form_listtuple' if ref.ndim else 'form_pyscalar')
+        return conv(v), ref, labs
+    try:
+        base = np.array(v, dtype=np.dtype(dt))
+    except OverflowError as e:
+        raise HarnessError('value %r does not fit dtype %s: %s' % (v, dt, e))
+    if not np.array_equal(base.astype(float), ref):
+        raise HarnessError('value %r is not exactly representable in dtype %s' % (v, dt))
+    kind = base.dtype.kind
+    if kind == 'f' and base.dtype.itemsize < 8:
+        labs.add('narrow_float')
+    if kind in 'iu' and (base.dtype.itemsize < 8 or kind == 'u'):
+        labs.add('form_narrow_int')
+    if kind == 'u':
+        labs.add('form_unsigned')
+    if kind == 'b':
+        labs.add('form_bool')
+    if base.dtype.byteorder not in ('=', '|', NATIVE):
+        labs.add('form_bigendian')
+    if kind in 'iu' and base.size:
+        info = np.iinfo(base.dtype)
+        if int(base.max()) >= info.max - 1 or (kind == 'i' and int(base.min()) <= info.min + 1):
+            labs.add('dtype_limit')
+    if lay == 'scalar':
+        labs.add('form_npscalar')
+        return base[()], ref, labs
+    if lay in ('c', 'a0'):
+        obj = base
+    elif lay == 'ro':
+        obj = base
+        obj.setflags(write=False)
+        labs.add('form_readonly')
+    elif lay == 'strided':
+        big = np.ones(base.shape[:-1] + (2 * base.shape[-1] + 1,), dtype=base.dtype)
+        big[..., 1::2] = base
+        obj = big[..., 1::2]
+        labs.add('form_strided')
+    elif lay == 'neg':
+        obj = np.ascontiguousarray(base[..., ::-1])[..., ::-1]
+        labs.add('form_strided')
+    elif lay == 'F':
+        obj = np.asfortranarray(base)
+        labs.add('form_fortran')
+    elif lay == 'T':
+        obj = np.ascontiguousarray(base.T).T
+        labs.add('form_fortran')
+    else:
+        raise HarnessError('bad layout %r' % (lay,))
+    if not np.array_equal(obj, base) or obj.shape != base.shape:
+        raise HarnessError('layout %r changed the value' % (lay,))
+    return obj, ref, labs
+
+
+def _scramble(arr):
+    """the caller overwrites an array it owns in place: every element changes (0 -> 1, anything else -> 0)"""
+    arr[...] = (arr == 0)
+
+
+def _is_narrowf(obj):
+    dt = getattr(obj, 'dtype', None)
+    return dt is not None and dt.kind == 'f' and dt.itemsize < 8
+
+
+def oracle_forms(case):
+    uc = _uc()
+    import atomman.lammps as lmp
+    labels = set()
+    ledger = Ledger()
+    fresh = None
+    prev_out = None
+    ncalls, nheld, special = 0, 0, False
+    try:
+        labels.add(apply_cfg(uc, case['cfg']))
+        leaf = dict(uc.unit)
+        for k, step in enumerate(case['steps']):
+            op = step['op']
+            if op == 'reset':
+                apply_cfg(uc, step['cfg'])
+                leaf = dict(uc.unit)
+                ledger.verify('reset_units (step %d)' % k)
+                if ledger.results:
+                    labels.add('ledger_across_reset')
+                labels.add('reset_between')
+                continue
+            if op == 'style':
+                name = step['style']
+                if fresh is None:
+                    fresh = _fresh_style_tables(lmp.style)
+                d = lmp.style.unit(name)
+                where = 'style.unit(%r) (step %d)' % (name, k)
+                require(hasattr(d, 'items') and dict(d) == fresh[name],
+                        lambda: '%s = %r, but the first call on a freshly loaded module gives %r' % (where, dict(d), fresh[name]))
+                require(not any(d is t for t, _, _ in ledger.tables), lambda: '%s handed out the same table object as an earlier call' % where)
+                ledger.add_table(d, where)
+                if len([1 for t in ledger.tables if t[2].startswith('style.unit(%r)' % name)]) >= 2:
+                    labels.add('style_recall')
+                keys = list(d)
+                edit = step['edit']
+                if edit != 'none' and keys:
+                    key = keys[step['k'] % len(keys)]
+                    if edit == 'set':
+                        d[key] = 'kg*m'
+                    elif edit == 'del':
+                        del d[key]
+                    elif edit == 'clear':
+                        d.clear()
+                    else:
+                        d['c09 extra'] = 'm'
+                    ledger.resnap(d)
+                    labels.add('style_edit')
+                ledger.verify(where)
+                ncalls += 1
+                continue
+
+            # ---- unit expression and its factor from my evaluator over the table in force
+            u = step['unit']
+            if u['kind'] == 'expr':
+                text = ux.render(u['ast'], u['ws'])
+                try:
+                    f = ux.evaluate(u['ast'], leaf)
+                except ux.RangeSkip:
+                    labels.add('range_skip_step')
+                    continue
+                labels |= (ux.features(u['ast'], u['ws']) & {'near_int_exp', 'near_one_lit'})
+            else:
+                text, f = (None if u['kind'] == 'none' else 'scaled'), 1.0
+                labels.add('unit_' + u['kind'])
+            if abs(f - 1.0) <= 1e-13:
+                labels.add('factor_one')
+                if u['kind'] == 'expr':
+                    labels.add('factor_one_expr')
+            elif abs(f - 1.0) <= 1.1e-3:
+                labels.add('factor_near_one')
+
+            if op == 'lit':
+                ref = np.array(step['v'], dtype=float)
+                fx = f
+                nz = np.abs(ref[ref != 0])
+                if nz.size and not (1e-290 < float(nz.min()) * fx and float(nz.max()) * fx < 1e290):
+                    labels.add('range_skip_step')
+                    continue
+                term = repr(step['v']) + ('' if text is None else step['sep'] + text)
+                where = 'set_literal(%r) (step %d)' % (term, k)
+                if text == 'scaled':
+                    labels.add('range_skip_step')      # 'value scaled' is not a documented literal form
+                    continue
+                try:
+                    got = uc.set_literal(term)
+                except ValueError as e:
+                    raise Violation('%s refused a well-formed "value unit" term: %r' % (where, e))
+                ga = np.asarray(got, dtype=float)
+                require(ga.shape == ref.shape, lambda: '%s has shape %r, the value has shape %r' % (where, ga.shape, ref.shape))
+                require(bool(np.all(np.abs(ga - ref * fx) <= 1e-12 * np.abs(ref * fx))),
+                        lambda: '%s = %r, expected value*factor = %r' % (where, np.asarray(got).tolist(), (ref * fx).tolist()))
+                ledger.add(got, where)
+                ledger.verify(where)
+                labels.add('op_lit')
+                if step['struct'] == 'decades' and nz.size >= 2 and float(nz.max()) >= 1e8 * float(nz.min()):
+                    labels.add('decades')
+                ncalls += 1
+                continue
+
+            # ---- set_in_units / get_in_units on a value in a storage form
+            reused = bool(step['prev']) and isinstance(prev_out, np.ndarray) and prev_out.ndim >= 1 and bool(np.all(np.isfinite(prev_out)))
+            if reused:
+                value, ref, flabs = prev_out, np.array(prev_out, dtype=float), {'reuse_out'}
+                struct = 'reused'
+            else:
+                value, ref, flabs = build_form(step['value'])
+                struct = step['value']['struct']
+            narrowf = _is_narrowf(value)
+            key = KEY_NARROWF if narrowf else None
+            if narrowf:
+                flabs.add('narrow_float')
+            fx = f if op == 'set' else 1.0 / f
+            nz = np.abs(ref[ref != 0])
+            if nz.size and not (1e-290 < float(nz.min()) * fx and float(nz.max()) * fx < 1e290):
+                labels.add('range_skip_step')
+                continue
+            fwd, inv = (uc.set_in_units, uc.get_in_units) if op == 'set' else (uc.get_in_units, uc.set_in_units)
+            where = '%s(<%s %s %r>, %r) (step %d)' % (fwd.__name__, step['value']['dt'] if not reused else 'result of the previous call',
+                                                     step['value']['layout'] if not reused else '', ref.tolist(), text, k)
+            ledger.add_input(value, where)
+            held_list = json.dumps(step['value']['v']) if (not reused and isinstance(value, (list, tuple))) else None
+            got = fwd(value, text)
+            ga = np.asarray(got)
+            require(ga.shape == ref.shape, lambda: '%s has shape %r, the value has shape %r' % (where, ga.shape, ref.shape))
+            exp = ref * f if op == 'set' else ref / f
+            gf = ga.astype(float)
+            if u['kind'] != 'expr':
+                require(bool(np.all(gf == ref)), lambda: '%s changed the value: %r' % (where, ga.tolist()))
+            require(bool(np.all(np.isfinite(gf)) and np.all(np.abs(gf - exp) <= 1e-12 * np.abs(exp))),
+                    lambda: '%s = %r (%s), expected value %s factor = %r' % (where, ga.tolist(), ga.dtype, '*' if op == 'set' else '/', exp.tolist()), key)
+            # the answer does not depend on how the value is stored: the plain C-ordered float64 call (2 roundings: 4 eps)
+            plain = np.asarray(fwd(np.array(ref), text), dtype=float)
+            require(plain.shape == ref.shape and bool(np.all(np.abs(gf - plain) <= 4 * EPS * np.abs(plain))),
+                    lambda: '%s = %r, but the same numbers as a C-ordered float64 array give %r' % (where, ga.tolist(), plain.tolist()), key)
+            if ref.ndim >= 1 and nz.size >= 2 and float(nz.max()) >= 1e8 * float(nz.min()):
+                # many decades in one call: every element equals its own single-value call (relative to ITS magnitude)
+                labels.add('decades')
+                if float(nz.max()) >= 1e16 * float(nz.min()):
+                    labels.add('decades_16')
+                flat, gflat = ref.reshape(-1), gf.reshape(-1)
+                for i in range(flat.size):
+                    one = float(fwd(float(flat[i]), text))
+                    require(abs(gflat[i] - one) <= 4 * EPS * abs(one),
+                            lambda: '%s: element %d is %r in the array call but %r when %r is converted alone' % (where, i, gflat[i], one, flat[i]), key)
+            # and back (same expression): the identity to 4 eps
+            back = inv(got, text)
+            ba = np.asarray(back)
+            require(ba.shape == ref.shape and bool(np.all(np.abs(ba.astype(float) - ref) <= 4 * EPS * np.abs(ref))),
+                    lambda: '%s: converting the result back with %s and the same expression gives %r, not the value' % (where, inv.__name__, ba.tolist()), key)
+            if held_list is not None:
+                require(json.dumps(_jsonable(value)) == held_list, lambda: '%s changed the list/tuple it was given' % where)
+            ledger.add(got, where)
+            ledger.add(back, 'the way back of ' + where)
+            ledger.verify(where)
+            ncalls += 1
+            labels |= flabs
+            labels.add('op_' + op)
+            if struct in ('near', 'halves'):
+                labels.add('value_' + struct)
+            if flabs - {'form_listtuple', 'form_pyscalar'}:
+                special = True
+
+            # ---- what the caller does next with what it handed in and got back
+            post = step['post']
+            if post in ('mut_out', 'mut_both') and isinstance(got, np.ndarray) and got.ndim >= 1 and got.size:
+                require(got.flags.writeable, lambda: '%s returned a read-only array' % where)
+                _scramble(got)
+                ledger.resnap(got)
+                labels.add('mut_out')
+                ledger.verify('the caller overwrote the result of ' + where)
+            if post in ('mut_in', 'mut_both') and isinstance(value, np.ndarray) and value.ndim >= 1 and value.size and value.flags.writeable:
+                if not (reused and post == 'mut_both'):
+                    _scramble(value)
+                    ledger.resnap(value)
+                    labels.add('mut_in')
+                    ledger.verify('the caller overwrote the argument of ' + where)
+            prev_out = got
+            if len(ledger.results) >= 4:
+                nheld += 1
+    finally:
+        _restore(uc)
+    if nheld >= 1:
+        labels.add('ledger')
+    labels.add('calls_%d' % min(ncalls, 4))
+    if ncalls >= 2 and (special or labels & {'mut_out', 'mut_in', 'reuse_out', 'style_edit', 'ledger_across_reset', 'decades', 'factor_one_expr'}):
+        labels.add('nt')
+    return labels
+
+
+def _jsonable(x):
+    return [_jsonable(y) for y in x] if isinstance(x, (list, tuple)) else x
+
+
+# ----------------------------------------------------------------------------- pairs (exhaustive): consecutive calls that touch the same state
+
+def pairs_enumerate(tier):
+    """every ordered pair of named working-unit choices (29 x 29 subsets of the quantities, names cycling through the table, plus
+    the same choice with the same names), with nothing / a random seed / 'SI' in between; every ordered pair of LAMMPS unit
+    styles with and without a caller-side edit of the first table in between"""
+    table = g9.NAMED_QUICK if tier == 'quick' else g9.NAMED_MORE
+    reps = 1 if tier == 'quick' else 3
+    cases = []
+    n = 0
+    for rep in range(reps):
+        for i, s1 in enumerate(g9.SUBSETS):
+            for j, s2 in enumerate(g9.SUBSETS):
+                for m, mid in enumerate((None, 'seed', 'SI')):
+                    n += 1
+                    u1 = {q: table[q][(n + a + rep) % len(table[q])] for a, q in enumerate(s1)}
+                    u2 = {q: table[q][(n // 3 + 2 * a + rep) % len(table[q])] for a, q in enumerate(s2)}
+                    o1, o2 = g9.orders_of(s1), g9.orders_of(s2)
+                    cases.append({'kind': 'reset', 'first': u1, 'order1': o1[n % len(o1)], 'second': u2, 'order2': o2[(n // 2) % len(o2)],
+                                  'mid': None if mid is None else ({'kind': 'seed', 'seed': 1000003 * n % (2 ** 31)} if mid == 'seed' else {'kind': 'SI'})})
+                    if s1 == s2:           # the choice already in force is asked for again (other keyword order)
+                        cases.append({'kind': 'reset', 'first': u1, 'order1': o1[n % len(o1)], 'second': dict(u1), 'order2': o1[(n + 1) % len(o1)],
+                                      'mid': cases[-1]['mid']})
+    for a in STYLES:
+        for b in STYLES:
+            for edit in ('none', 'set', 'del', 'clear'):
+                cases.append({'kind': 'style', 'a': a, 'b': b, 'edit': edit, 'k': len(cases)})
+    return cases
+
+
+def oracle_pairs(case):
+    uc = _uc()
+    if case['kind'] == 'style':
+        import atomman.lammps as lmp
+        fresh = _fresh_style_tables(lmp.style)
+        a, b = case['a'], case['b']
+        ta = lmp.style.unit(a)
+        require(dict(ta) == fresh[a], lambda: 'style.unit(%r) = %r, but the first call on a freshly loaded module gives %r' % (a, dict(ta), fresh[a]))
+        snap = dict(ta)
+        keys = list(ta)
+        if case['edit'] != 'none':
+            key = keys[case['k'] % len(keys)]
+            if case['edit'] == 'set':
+                ta[key] = 'kg*m'
+            elif case['edit'] == 'del':
+                del ta[key]
+            else:
+                ta.clear()
+            snap = dict(ta)
+        tb = lmp.style.unit(b)
+        require(tb is not ta, lambda: 'style.unit(%r) handed out the table object of the earlier style.unit(%r) call' % (b, a))
+        require(dict(tb) == fresh[b],
+                lambda: 'style.unit(%r) called after style.unit(%r)%s = %r, but the first call on a freshly loaded module gives %r'
+                % (b, a, '' if case['edit'] == 'none' else ' (whose table the caller then edited)', dict(tb), fresh[b]))
+        require(dict(ta) == snap, lambda: 'the table of style.unit(%r) held by the caller changed when style.unit(%r) was called' % (a, b))
+        labels = {'style_pair', 'nt'}
+        if a == b:
+            labels.add('style_same')
+        if case['edit'] != 'none':
+            labels.add('style_edit')
+        return labels
+    u1, u2 = case['first'], case['second']
+    labels = {'reset_pair', 'n%d_n%d' % (min(len(u1), 2), min(len(u2), 2))}
+    try:
+        uc.reset_units(**_ordered(u1, case['order1']))
+        _chosen_are_one(uc, u1, case['order1'])
+        if case['mid'] is not None:
+            labels.add('mid_' + case['mid']['kind'])
+            apply_cfg(uc, case['mid'])
+        uc.reset_units(**_ordered(u2, case['order2']))
+        _chosen_are_one(uc, u2, case['order2'])
+        t1 = dict(uc.unit)
+        # reference: the same choice from the SI baseline, canonical keyword order
+        uc.reset_units(seed='SI')
+        uc.reset_units(**_ordered(u2))
+        _same_table(uc, u2, None, t1, 'called from SI',
+                    'after reset_units(%s)%s, keywords in the order %s' % (_kw(u1, case['order1']), '' if case['mid'] is None else
+                                                                          ' and ' + repr(case['mid']), ', '.join(case['order2'])))
+        if u1 == u2:
+            labels.add('same_choice')
+        if set(u1) != set(u2):
+            labels.add('other_quantities')
+        labels.add('nt')
+    finally:
+        _restore(uc)
+    return labels
+
+
 # ----------------------------------------------------------------------------- atheris campaign (byte level, optional)
 
 FUZZ = os.path.join(VERIF, 'pbt', 'fuzz_c09.py')
@@ -731,23 +1211,36 @@ def oracle_atheris(case):
     return {'atheris', 'nt', 'corpus' if case['corpus'] else 'empty_corpus'}
 
 
+# guards of the forms clause at half the observed shares (quick, seeds 1-2).  The float16/float32 storage class sits behind the
+# open finding KEY_NARROWF on the unchanged tree (its cases are excluded and carry no labels there), so its guard only exists
+# once that key is no longer listed open.
+_FORMS_SHARE = {'nt': 0.45, 'ledger': 0.37, 'ledger_across_reset': 0.13, 'mut_in': 0.17, 'mut_out': 0.23, 'reuse_out': 0.1,
+                'decades': 0.21, 'decades_16': 0.15, 'dtype_limit': 0.15, 'factor_one_expr': 0.28, 'factor_near_one': 0.15,
+                'form_bigendian': 0.14, 'form_bool': 0.028, 'form_fortran': 0.11, 'form_listtuple': 0.13, 'form_narrow_int': 0.19,
+                'form_npscalar': 0.12, 'form_readonly': 0.088, 'form_strided': 0.145, 'form_unsigned': 0.115, 'style_edit': 0.15,
+                'style_recall': 0.05, 'value_near': 0.098, 'value_halves': 0.049, 'op_lit': 0.11, 'op_get': 0.28, 'near_one_lit': 0.2,
+                'reset_between': 0.2}
+if KEY_NARROWF not in load_known('C09')[0]:
+    _FORMS_SHARE['narrow_float'] = 0.07
+
 # the two enumerations are cheap (seconds) and run as one shard each so that they are scheduled first and are never starved by
 # the wall budget when the machine is shared
 CLAUSES = [
-    Clause('precedence', oracle_precedence, g9.precedence_cases, quick=40000, thorough=700000,
+    Clause('precedence', oracle_precedence, g9.precedence_cases, quick=37000, thorough=700000,
            min_share={'nt': 0.37, 'div_then_op': 0.23, 'pow_in_product': 0.37, 'grp_product_pow': 0.12, 'paren_right_operand': 0.13,
                       'nested_paren': 0.09, 'ws_tab': 0.16, 'ws_newline': 0.16, 'ws_cr': 0.12, 'exotic_name': 0.14,
-                      'lit_leading_dot': 0.035, 'neg_exp': 0.24, 'cfg_named': 0.25, 'cfg_seed': 0.16},
+                      'lit_leading_dot': 0.035, 'neg_exp': 0.24, 'cfg_named': 0.25, 'cfg_seed': 0.16,
+                      'near_int_exp': 0.11, 'near_one_lit': 0.025},
            max_share={'range_skip': 0.05},
            desc='uc.parse(rendered expression) equals my AST evaluator (parentheses, powers, then * / left to right) to 1e-12, '
                 'under random / SI / named working units'),
-    Clause('identity', oracle_identity, g9.identity_cases, quick=16000, thorough=200000,
-           min_share={'nt': 0.3, 'mode_literal': 0.14, 'literal_list': 0.08, 'literal_nounit': 0.03, 'mode_scaled': 0.03,
+    Clause('identity', oracle_identity, g9.identity_cases, quick=15000, thorough=200000,
+           min_share={'nt': 0.3, 'near_int_exp': 0.08, 'near_one_lit': 0.02, 'mode_literal': 0.14, 'literal_list': 0.08, 'literal_nounit': 0.03, 'mode_scaled': 0.03,
                       'mode_none': 0.03, 'ndim2': 0.05, 'ndim3': 0.06, 'as_array': 0.18, 'as_tuple': 0.06},
            max_share={'range_skip': 0.05},
            desc='get_in_units(set_in_units(v,u),u) = v to 4 eps; set_in_units = v*factor; set_literal("v u") = v*factor; shapes kept; '
                 'None / "scaled" units'),
-    Clause('invariance', oracle_invariance, g9.invariance_cases, quick=12000, thorough=160000,
+    Clause('invariance', oracle_invariance, g9.invariance_cases, quick=11000, thorough=160000,
            min_share={'nt': 0.4, 'expanded': 0.14, 'distinct_cfgs_3': 0.29, 'dimensional': 0.44, 'kw_reordered': 0.2},
            max_share={'range_skip': 0.05},
            desc='same-dimension expression pairs (class substitution / expansion from my dimension table): conversion A -> B gives the '
@@ -761,10 +1254,28 @@ CLAUSES = [
                 '(%d dimension classes) and the drawn expressions agree with my evaluator over the current table through parse, '
                 'set_in_units and get_in_units (1e-12), and %d same-dimension conversions keep their value along the walk (1e-10)'
                 % (len(BATTERY), BATTERY_NCLASS, len(BATTERY_PAIRS))),
+    Clause('forms', oracle_forms, g9.forms_cases, quick=4000, thorough=80000,
+           min_share=_FORMS_SHARE, max_share={'range_skip_step': 0.1},
+           desc='sequences of 2-6 calls in one process: set_in_units / get_in_units / set_literal / style.unit with the value in a drawn '
+                'storage form (float64, list, tuple, narrow / unsigned / big-endian / bool integer arrays up to the dtype limits, numpy '
+                'scalars, read-only, strided, negative-stride, Fortran-ordered and transposed arrays; float16/float32 with exactly '
+                'representable values), one magnitude per element over up to 66 decades, near-threshold values and exact halves, '
+                'under a random expression, the working unit itself (factor one) or a literal 1e-13..1e-3 from one times it: value*factor '
+                'to 1e-12, equal (4 eps) to the C-ordered float64 call and, over many decades, to every single-value call, identity on '
+                'the way back (4 eps); every result and argument is kept in a ledger and compared bit for bit after every later call, '
+                'reset_units and caller-side overwrite of arguments and results; nothing returned shares memory with an argument or '
+                'another result; style tables equal the first call on a freshly loaded module whatever was called or edited before'),
     Clause('named', oracle_named, enumerate=named_enumerate, nshards=1, min_share={'nt': 0.37, 'refusal': 0.01, 'kw_orders_24': 0.2, 'kw_orders_6': 0.17},
            desc='exhaustive: every non-over-determined choice of <= 4 named working units, keywords passed in EVERY order: each '
                 'chosen unit is one (1e-12) via unit[], parse and get_in_units, the table is the same after different previous '
                 'configurations and for every keyword order; documented ValueError refusals'),
+    Clause('pairs', oracle_pairs, enumerate=pairs_enumerate, nshards=1,
+           min_share={'nt': 0.5, 'reset_pair': 0.45, 'style_pair': 0.04, 'same_choice': 0.015, 'mid_seed': 0.15, 'mid_SI': 0.15,
+                      'other_quantities': 0.4, 'style_edit': 0.03},
+           desc='exhaustive: every ordered pair of named working-unit choices (29 x 29 subsets of the quantities, and the same choice '
+                'asked for again), with nothing / a random seed / SI in between: chosen units are one and the table equals the one '
+                'reached from the SI baseline (1e-12); every ordered pair of the 8 LAMMPS unit styles, with the caller editing the '
+                'first table in between: the second table equals the first call on a freshly loaded module'),
     Clause('lammps_dims', oracle_lammps, enumerate=lammps_enumerate, nshards=1, min_share={'nt': 0.4},
            desc='exhaustive: 8 styles x 13 mechanical keys: dimension exponents recovered by regression over 12 random seeds equal '
                 'the dimension of the quantity (1e-6); lj entries are None'),
